@@ -211,6 +211,24 @@ func (w *World) Fn(name string) *ssa.Function {
 		}
 	}
 	_ = pfx
+	// the names of type parameters are not part of a function's identity: "(*Buffer[D]).Append" also names
+	// func (b *Buffer[T]) Append
+	if g := genericKey(name); g != "" {
+		var hit *ssa.Function
+		n := 0
+		for k, f := range w.Funcs {
+			if f.Origin() != nil {
+				continue
+			}
+			if genericKey(strings.ReplaceAll(k, path+".", "")) == g {
+				hit = f
+				n++
+			}
+		}
+		if n == 1 {
+			return hit
+		}
+	}
 	// a method named through the type it used to be declared on, e.g. "(channels).BufferIndex": when that type is
 	// gone, the method a *Buffer promotes under the same name is the one meant (the anchor is the operation)
 	if i := strings.Index(name, ")."); strings.HasPrefix(name, "(") && i > 0 && !strings.Contains(name, "[") {
@@ -275,4 +293,48 @@ func discoverHeaderLayout(w *World) {
 	if p := probe("verifProbeDepth"); p != nil {
 		h.depth = p
 	}
+}
+
+// genericKey blanks the type-parameter names in a function name ("(*Buffer[D]).Append" -> "(*Buffer[_]).Append");
+// it returns "" when a bracket holds a concrete type (an instantiation is identified by its type arguments).
+func genericKey(name string) string {
+	var sb strings.Builder
+	i := 0
+	any := false
+	for i < len(name) {
+		j := strings.IndexByte(name[i:], '[')
+		if j < 0 {
+			sb.WriteString(name[i:])
+			break
+		}
+		k := strings.IndexByte(name[i+j:], ']')
+		if k < 0 {
+			return ""
+		}
+		inner := name[i+j+1 : i+j+k]
+		for _, tok := range strings.Split(inner, ",") {
+			tok = strings.TrimSpace(tok)
+			if tok == "" {
+				return ""
+			}
+			for _, ct := range coreTypes {
+				if tok == ct {
+					return ""
+				}
+			}
+			if strings.HasPrefix(tok, "verifN") || strings.ContainsAny(tok, ".*[]() ") {
+				return ""
+			}
+		}
+		sb.WriteString(name[i : i+j])
+		sb.WriteString("[")
+		sb.WriteString(strings.Repeat("_,", strings.Count(inner, ",")))
+		sb.WriteString("_]")
+		any = true
+		i = i + j + k + 1
+	}
+	if !any {
+		return ""
+	}
+	return sb.String()
 }
